@@ -29,7 +29,7 @@ def inline_builtin(expr: Expression, rules: Mapping[str, Rule]) -> Expression:  
 def inline_silent_rules(expr: Expression, rules: Mapping[str, Rule]) -> Expression:
     """Inline silent rules."""
     if isinstance(expr, Identifier) and not expr.tag:
-        rule = rules[expr.value]
-        if rule.modifier & SILENT:
+        rule = rules.get(expr.value)
+        if rule and rule.modifier & SILENT:
             return rule.expression
     return expr
